@@ -1968,7 +1968,120 @@ def t20_from_dict_shape():
         ",\n   ".join(f"({lean_str(c)}, {ls(a)}, {ls(b)})" for c, a, b in rows) + "]\n\nend NirVerif.Generated\n"
     return {"FromDictShape.lean": txt}
 
-ITEMS = {"T1": t1_fields, "T2": t2_whitelist, "T3": t3_file_modes, "T4": t4_conv_axis, "T5": t5_flatten, "T6": t6_lif, "T7": t7_cuba, "T8": t8_unique_name, "T9": t9_neuron_shapes, "T10": t10_guards, "T11": t11_dict_overrides, "T12": t12_graph_interface, "T13": t13_write_shape, "T14": t14_worklist, "T15": t15_check_errors, "T16": t16_observer_effects, "T17": t17_declared_types, "T18": t18_write_dispatch, "T19": t19_read_shape, "T20": t20_from_dict_shape}
+
+# ---------------------------------------------------------------------------------------
+# T21  every call of calculate_conv_output in the constructors and in the active inference loop: which expression is bound
+#      to which parameter, and how the declared output is assembled from the result (C06)
+# ---------------------------------------------------------------------------------------
+def t21_conv_call_sites():
+    item = "T21"
+    import re
+    ut = ast.parse(_src("nir/ir/utils.py"))
+    cf = _find_func(ut, "calculate_conv_output")
+    if cf is None or cf.args.defaults or cf.args.vararg or cf.args.kwarg or cf.args.kwonlyargs:
+        raise Refusal(item, "calculate_conv_output with plain positional parameters not found")
+    params = [a.arg for a in cf.args.args]
+    D = ExprT(item, "num", {})
+
+    def norm(e, me, pre=None):
+        t = ast.unparse(e)
+        t = re.sub(rf"\b{me}\b", "node", t)
+        if pre:
+            t = re.sub(rf"\b{pre}\b", "pre", t)
+        return t
+
+    def bind(call, me, pre=None):
+        if len(call.args) + len(call.keywords) != len(params):
+            raise Refusal(item, f"call with {len(call.args) + len(call.keywords)} arguments: {ast.unparse(call)[:80]}")
+        got = {}
+        for i, a in enumerate(call.args):
+            if isinstance(a, ast.Starred):
+                raise Refusal(item, "starred argument")
+            got[params[i]] = norm(a, me, pre)
+        for k in call.keywords:
+            if k.arg not in params or k.arg in got:
+                raise Refusal(item, f"unexpected keyword {k.arg}")
+            got[k.arg] = norm(k.value, me, pre)
+        return [got[p_] for p_ in params]
+
+    def assembled(stmts, result_name, me, pre=None):
+        """the channel expression c in np.array([c, *result]) of the first later use of the result"""
+        for st in stmts:
+            for n in ast.walk(st):
+                if isinstance(n, ast.Call) and D.dotted(n.func) == "np.array" and len(n.args) == 1 and isinstance(n.args[0], ast.List) \
+                        and len(n.args[0].elts) == 2 and isinstance(n.args[0].elts[1], ast.Starred) \
+                        and isinstance(n.args[0].elts[1].value, ast.Name) and n.args[0].elts[1].value.id == result_name:
+                    if n.keywords:
+                        raise Refusal(item, "np.array with keywords where the declared output is assembled")
+                    return norm(n.args[0].elts[0], me, pre)
+        raise Refusal(item, "the result of calculate_conv_output is not assembled as np.array([channels, *result])")
+
+    def calls_in(stmts):
+        out = []
+        for i, st in enumerate(stmts):
+            if isinstance(st, ast.Assign) and isinstance(st.value, ast.Call) and D.dotted(st.value.func) == "calculate_conv_output" \
+                    and len(st.targets) == 1 and isinstance(st.targets[0], ast.Name):
+                out.append((st.value, st.targets[0].id, stmts[i + 1:]))
+        return out
+
+    rows = []
+    ct = ast.parse(_src("nir/ir/conv.py"))
+    for cls in ("Conv1d", "Conv2d"):
+        fn = _find_func(ct, "__post_init__", cls)
+        if fn is None:
+            raise Refusal(item, f"{cls}.__post_init__ not found")
+        found = []
+        for n in ast.walk(fn):
+            if isinstance(n, (ast.If, ast.FunctionDef)):
+                for blk in (n.body, getattr(n, "orelse", [])):
+                    found += calls_in(blk)
+        if len(found) != 1:
+            raise Refusal(item, f"{cls}.__post_init__ has {len(found)} assignments from calculate_conv_output, expected 1")
+        call, res, rest = found[0]
+        rows.append((f"{cls}.__post_init__", bind(call, "self"), assembled(rest, res, "self")))
+    n_total = sum(1 for n in ast.walk(ct) if isinstance(n, ast.Call) and D.dotted(n.func) == "calculate_conv_output")
+    if n_total != 2:
+        raise Refusal(item, f"conv.py calls calculate_conv_output {n_total} times, expected 2")
+    gt = ast.parse(_src("nir/ir/graph.py"))
+    inf = _find_func(gt, "_forward_type_inference", "NIRGraph")
+    if inf is None:
+        raise Refusal(item, "_forward_type_inference not found")
+
+    def walk_ifs(stmts, tests):
+        for st in stmts:
+            if isinstance(st, ast.If):
+                t = st.test
+                names = []
+                parts = t.values if isinstance(t, ast.BoolOp) and isinstance(t.op, ast.Or) else [t]
+                for p_ in parts:
+                    if isinstance(p_, ast.Call) and D.dotted(p_.func) == "isinstance" and len(p_.args) == 2 \
+                            and isinstance(p_.args[0], ast.Name) and p_.args[0].id == "post_node":
+                        names.append(ast.unparse(p_.args[1]))
+                here = tests + ["|".join(names)] if names and len(names) == len(parts) else tests
+                for call, res, rest in calls_in(st.body):
+                    rows.append(("infer:" + (here[-1] if here else "?"), bind(call, "post_node", "pre_node"),
+                                 assembled(rest, res, "post_node", "pre_node")))
+                walk_ifs(st.body, here)
+                walk_ifs(st.orelse, tests)
+            elif isinstance(st, (ast.While, ast.For, ast.With, ast.Try)):
+                walk_ifs(st.body, tests)
+    before = len(rows)
+    walk_ifs(inf.body, [])
+    n_inf = sum(1 for n in ast.walk(inf) if isinstance(n, ast.Call) and D.dotted(n.func) == "calculate_conv_output")
+    if n_inf != len(rows) - before:
+        raise Refusal(item, f"_forward_type_inference calls calculate_conv_output {n_inf} times, {len(rows) - before} of them in the accepted form")
+    ls = lambda xs: "[" + ", ".join(lean_str(x) for x in xs) + "]"
+    txt = HEADER + "\nnamespace NirVerif.Generated\n\n" \
+        "/-- the parameters of `calculate_conv_output`, in order -/\n" \
+        f"def convOutputParams : List String := {ls(params)}\n\n" \
+        "/-- every call of `calculate_conv_output` in the conv constructors and in the active inference loop: the site, the\n" \
+        "    expression bound to each parameter (in parameter order; `node` is `self` / `post_node`, `pre` is `pre_node`), and\n" \
+        "    the channel entry `c` of the declared output `np.array([c, *result])` -/\n" \
+        "def convCallSites : List (String × List String × String) :=\n  [" + \
+        ",\n   ".join(f"({lean_str(a)}, {ls(b)}, {lean_str(c)})" for a, b, c in rows) + "]\n\nend NirVerif.Generated\n"
+    return {"ConvCallSites.lean": txt}
+
+ITEMS = {"T1": t1_fields, "T2": t2_whitelist, "T3": t3_file_modes, "T4": t4_conv_axis, "T5": t5_flatten, "T6": t6_lif, "T7": t7_cuba, "T8": t8_unique_name, "T9": t9_neuron_shapes, "T10": t10_guards, "T11": t11_dict_overrides, "T12": t12_graph_interface, "T13": t13_write_shape, "T14": t14_worklist, "T15": t15_check_errors, "T16": t16_observer_effects, "T17": t17_declared_types, "T18": t18_write_dispatch, "T19": t19_read_shape, "T20": t20_from_dict_shape, "T21": t21_conv_call_sites}
 
 
 def regenerate(out_dir=OUT, items=None):
